@@ -2,6 +2,8 @@ package quic
 
 import (
 	"context"
+	"math"
+	"time"
 
 	"github.com/refraction-networking/uquic/internal/ackhandler"
 	"github.com/refraction-networking/uquic/internal/handshake"
@@ -32,9 +34,13 @@ var newUClientConnection = func(
 	uSpec *QUICSpec, // [UQUIC]
 ) *wrappedConn {
 	uSpec = uSpec.dialCopy() // [UQUIC] connection setup writes to the spec's extensions
+	// [UQUIC] The transport parameters on the wire come from the spec, so the limits this
+	// connection enforces must come from the spec as well, not from conf.
+	conf, uStreamWindows := configForSpec(conf, uSpec)
 	s := &Conn{
 		conn:                conn,
 		config:              conf,
+		uStreamWindows:      uStreamWindows,
 		origDestConnID:      destConnID,
 		handshakeDestConnID: destConnID,
 		srcConnIDLen:        srcConnID.Len(),
@@ -202,4 +208,83 @@ var newUClientConnection = func(
 		}
 	}
 	return &wrappedConn{Conn: s}
+}
+
+// uStreamReceiveWindows are the initial_max_stream_data_* values a QUICSpec advertises.
+// Config has a single InitialStreamReceiveWindow, a spec can advertise a different window
+// for each kind of stream. A negative value means the spec does not list the parameter.
+// [UQUIC]
+type uStreamReceiveWindows struct {
+	bidiLocal, bidiRemote, uni int64
+}
+
+// forStream returns the receive window (and its auto-tuning ceiling) of stream id, as
+// seen from perspective pers: the advertised one if the spec lists it, the given Config
+// values otherwise.
+func (w *uStreamReceiveWindows) forStream(id protocol.StreamID, pers protocol.Perspective, window, maxWindow protocol.ByteCount) (protocol.ByteCount, protocol.ByteCount) {
+	advertised := w.uni
+	if id.Type() == protocol.StreamTypeBidi {
+		if id.InitiatedBy() == pers {
+			advertised = w.bidiLocal
+		} else {
+			advertised = w.bidiRemote
+		}
+	}
+	if advertised < 0 {
+		return window, maxWindow
+	}
+	window = protocol.ByteCount(advertised)
+	return window, max(maxWindow, window)
+}
+
+// configForSpec returns the Config a spec-driven connection runs with: conf, with every
+// limit that the spec's QUIC transport parameters advertise replaced by the advertised
+// value. The peer only ever sees the spec's parameters; enforcing conf's values instead
+// closed connections with FLOW_CONTROL_ERROR, STREAM_LIMIT_ERROR or FRAME_ENCODING_ERROR
+// (or an early idle timeout) although the peer stayed within what it was told, and left
+// the peer without credit when the advertised window was the smaller one. Parameters the
+// spec does not list keep conf's values. [UQUIC]
+func configForSpec(conf *Config, uSpec *QUICSpec) (*Config, *uStreamReceiveWindows) {
+	if uSpec.ClientHelloSpec == nil {
+		return conf, nil
+	}
+	var params tls.TransportParameters
+	for _, ext := range uSpec.ClientHelloSpec.Extensions {
+		if qtp, ok := ext.(*tls.QUICTransportParametersExtension); ok {
+			// suppression is idempotent; newUClientConnection applies it again in place
+			params = SuppressQUICTransportParameters(qtp, uSpec.SuppressTransportParameters).TransportParameters
+			break
+		}
+	}
+	if params == nil {
+		return conf, nil
+	}
+	conf = conf.Clone()
+	windows := &uStreamReceiveWindows{bidiLocal: -1, bidiRemote: -1, uni: -1}
+	datagrams := false
+	for _, param := range params {
+		switch p := param.(type) {
+		case tls.InitialMaxData:
+			conf.InitialConnectionReceiveWindow = uint64(p)
+			conf.MaxConnectionReceiveWindow = max(conf.MaxConnectionReceiveWindow, uint64(p))
+		case tls.InitialMaxStreamDataBidiLocal:
+			windows.bidiLocal = int64(min(uint64(p), uint64(protocol.MaxByteCount)))
+		case tls.InitialMaxStreamDataBidiRemote:
+			windows.bidiRemote = int64(min(uint64(p), uint64(protocol.MaxByteCount)))
+		case tls.InitialMaxStreamDataUni:
+			windows.uni = int64(min(uint64(p), uint64(protocol.MaxByteCount)))
+		case tls.InitialMaxStreamsBidi:
+			conf.MaxIncomingStreams = int64(min(uint64(p), uint64(protocol.MaxStreamCount)))
+		case tls.InitialMaxStreamsUni:
+			conf.MaxIncomingUniStreams = int64(min(uint64(p), uint64(protocol.MaxStreamCount)))
+		case tls.MaxIdleTimeout:
+			if p > 0 {
+				conf.MaxIdleTimeout = time.Duration(min(uint64(p), uint64(math.MaxInt64/int64(time.Millisecond)))) * time.Millisecond
+			}
+		case tls.MaxDatagramFrameSize:
+			datagrams = p > 0
+		}
+	}
+	conf.EnableDatagrams = datagrams
+	return conf, windows
 }
